@@ -50,6 +50,11 @@ def jobs(tier, seed):
     for name in ('delayed', 'nested-rep', 'qa222'):
         J.append(Job('paths:2subsets:' + name, 'harness.c16', 'h_paths', {'family': name, 'n_subsets': 2, 'max_factor': 1, 'depth': depth, 'nbits': 4096},
                      timeout=3000 if thorough else 900, witnesses=['queried'], core=not thorough))
+    # traced variants (the querent itself runs under the solver: code that branches on decoded values is followed too)
+    for name, ns in (('qa222', 2), ('stat224', 2), ('delayed', 2)) + ((('sub223', 2), ('nested-rep', 1)) if thorough else ()):
+        J.append(Job('paths:traced:%dsubsets:%s' % (ns, name), 'harness.c16', 'h_paths',
+                     {'family': name, 'n_subsets': ns, 'max_factor': 1, 'depth': 2, 'menu': 3, 'traced': True, 'nbits': 4096},
+                     timeout=3000 if thorough else 1200, witnesses=['queried'], core=not thorough))
     for name in ('c-rep', 'c-fixed', 'c-222', 'c-224', 'c-204'):
         J.append(Job('paths:compressed:' + name, 'harness.c16', 'h_paths', {'family': name, 'compressed': True, 'n_subsets': 2, 'max_factor': 1, 'depth': depth,
                                                                               'max_diff_width': 1 if name in ('c-222', 'c-224') else 2},
